@@ -42,8 +42,7 @@ I, Rl = z3.Int, z3.Real
 POINTWISE_HELPERS = [
     f"{CP}:polar_coordinates", f"{CP}:evaluate_probe", f"{CP}:aperture", f"{CP}:soft_aperture", f"{CP}:hard_aperture",
     f"{CP}:aberration_surface", f"{CP}:aberration_surface_polar_gradients", f"{CP}:aberration_surface_cartesian_gradients",
-    f"{CP}:spatial_frequencies", f"{CP}:_passively_rotate_grid",
-]
+]   # spatial_frequencies / _passively_rotate_grid are NOT interpreted inline: the grid set-up goes through the contract of contracts/C12.py (C_SF_USE below)
 DP_PROPS = [f"{DP}:DirectPtychography.{p}" for p in ("verbose", "vbf_stack", "bf_mask", "semiangle_cutoff", "device", "scan_sampling",
                                                       "corrected_stack", "reciprocal_sampling")]
 
@@ -73,11 +72,12 @@ def make_registry():
     cm.install_crop(reg)
     for c in CONTRACTS:
         reg.add_contract(c)
-    for c in C12_GRADIENTS:         # value contracts of C12 (own registry); the typing of reconstruct interprets these functions inline
+    for c in C12_GRADIENTS + C12_GRIDS + C12_ALIASES:   # value contracts of C12 (own registry); the typing of reconstruct interprets these functions inline (grids: C_SF_USE)
         reg.contracts.pop(c.func, None)
     for c in (C_CURAB, C_CURROT):   # verified on their own AND interpreted inline inside reconstruct (its frame clause sees their effects)
         reg.contracts.pop(c.func, None)
     reg.contracts[C_ITER_USE.func] = C_ITER_USE   # at call sites: the statement; the body of __iter__ is verified below (C09.C_ITER)
+    reg.contracts[C_SF_USE.func] = C_SF_USE       # at call sites: the typing of C12's statement; the bodies are verified below (C12_GRIDS)
     C09._REG_HOLDER["reg"] = reg
     reg.inline.add(f"{PU}:SimpleBatcher.rng")
     for q in DP_PROPS + [f"{DP}:HyperparameterState.current_aberrations", f"{DP}:HyperparameterState.current_rotation_angle",
@@ -1645,8 +1645,38 @@ class ForeignContract:
 # _return_lateral_shifts (shift = wavelength * grad chi / 2 pi at the pixel).  Inside reconstruct's typing they stay interpreted inline.
 C12_GRADIENTS = [ForeignContract(C12, c) for c in (C12.C_POLGRAD, C12.C_CARTGRAD, C12.C_SHIFTS)]
 
+# "... at its detector pixel": the detector / scan frequency grids every kernel is evaluated on.  contracts/C12.py states and verifies from source
+# that spatial_frequencies(gpts, sampling, angle)[i, j] is the PROPER passive rotation (an isometry; None / 0 = unrotated) of
+# (fftfreq(gpts[0], sampling[0])[i], fftfreq(gpts[1], sampling[1])[j]) and that (k, phi) are its polar coordinates; these contracts are
+# re-verified here, and reconstruct / gamma_factor / _return_upsampled_qgrid obtain their grids through that statement (C_SF_USE), whose
+# typing reads: a pair of globals of shape gpts, data-free and mask-free (each element a function of gpts, sampling, angle and its index).
+C12_GRIDS = [ForeignContract(C12, c) for c in (C12.C_ROTATE, C12.C_SPATIAL, C12.C_POLARCOORD, C12.C_POLARSF)]
+
+
+def sf_use_requires(s):
+    rot = s.get("rotation_angle")
+    return [("rotation_angle is a hyper-parameter (None or a real number), not a tensor", z3.BoolVal(rot is None or isinstance(rot, (int, float, Sym)))),
+            ("gpts are two grid dimensions", z3.BoolVal(len(tuple(s.gpts)) == 2 and all(cm.as_dim(n) is not None for n in s.gpts)))]
+
+
+def sf_use_result(ctx, s):
+    dims = tuple(cm.as_dim(n) for n in s.gpts)
+    if any(d is None for d in dims):
+        raise V.OutOfSubset("spatial_frequencies on sizes that are not abstract grid dimensions")
+    return TT(dims, "G", "C", "free"), TT(dims, "G", "C", "free")
+
+
+# "the hyper-parameters (aberrations / rotation) the reconstruction is a function of": the one-off override passes through validate_aberration_coefficients
+# (typed here as "returns a fresh dict").  Its alias-table contract of contracts/C12.py - every given non-None coefficient, EXACT ZEROS INCLUDED (0, 0.0 are
+# in the value domain: all values are arbitrary reals), appears under its canonical symbol with the tabulated value - is re-verified in this check, so an
+# override such as {'C10': 0.0} cannot be dropped silently (the stored non-zero value would survive).
+C12_ALIASES = [ForeignContract(C12, C12.C_VALIDATE)]
+
+C_SF_USE = Contract(C12.C_SPATIAL.func, setup=C12.sf_setup, requires=sf_use_requires, result=sf_use_result,
+                    note="statement proved in contracts/C12.py (rotated fftfreq grid), typed: two data-free, mask-free globals of shape gpts")
+
 # SimpleBatcher.__iter__ / __len__: the contracts of contracts/C09.py, re-verified in this check because reconstruct relies on the partition
-CONTRACTS = [C_KERNELNAME, C_PREPROCESS, C_BFCONTEXT, C_GAMMA, C_KERNEL, C_CURAB, C_CURROT, C_CROP, C_RECONSTRUCT, C09.C_ITER, C09.C_LEN] + C12_GRADIENTS
+CONTRACTS = [C_KERNELNAME, C_PREPROCESS, C_BFCONTEXT, C_GAMMA, C_KERNEL, C_CURAB, C_CURROT, C_CROP, C_RECONSTRUCT, C09.C_ITER, C09.C_LEN] + C12_GRADIENTS + C12_GRIDS + C12_ALIASES
 
 
 # ------------------------------------------------------------------------------------------------
@@ -1777,6 +1807,8 @@ TRUSTED = [
     "meta-theorem of the typing (not mechanised): a value typed B is a function of its row's BF pixel and of globals; R/A values are additive over rows",
     "T1: finite sums regroup over a partition / telescope over prefix sums",
     "SimpleBatcher contract (partition into consecutive batches; shuffle=False, val_ratio=0): proved in contracts/C09.py, used here at the call site",
+    "spatial_frequencies at call sites (reconstruct, gamma_factor, _return_upsampled_qgrid): used through the statement proved from source in contracts/C12.py and "
+    "re-verified in this check (proper passive rotation of the fftfreq grid), typed as two data-free, mask-free globals of shape gpts; its body is no longer interpreted inline",
     "dataclass BrightFieldContext stores its keyword arguments; validate_tensor returns its tensor argument; tqdm progress bar has no effect",
     "torch.fft.fftshift / ifftshift = the index maps out[i] = in[(i -/+ n//2) mod n] on every axis; torch.where(mask) returns coordinate vectors whose min / max are the "
     "extremes of the True entries (both attained); python slice clipping semantics of the engine (mask cropping contract)",
